@@ -18,20 +18,33 @@ import (
 // C15 provider/* — the breaker where it is deployed: in front of the Google provider's directory API
 // (real GoogleProvider, real GoogleAdminService over an in-memory Admin SDK transport, the provider's
 // own breaker settings, clock frozen). Every sequence of up to five operations from {token validation
-// accepted / refused by the identity provider, directory question answered / failing} is run; the
+// accepted / refused by the identity provider, directory question answered / failing / rejected as an
+// invalid member key} is run; the
 // reference breaker is fed with the DIRECTORY outcomes only, and a directory question must reach the
 // directory exactly when the reference breaker is closed.
 
 type c15DirTransport struct {
-	fail bool
-	hits int
+	fail  bool
+	badID bool // hasMember answers 400 "Invalid Input: memberKey" (an account outside the domain)
+	hits  int
+	seen  []string // outcome of every request that reached the directory, in order: "ok" | "fail"
 }
 
 func (t *c15DirTransport) RoundTrip(r *http.Request) (*http.Response, error) {
 	t.hits++
 	code, body := 200, `{"isMember":true}`
-	if t.fail {
+	switch {
+	case t.fail:
 		code, body = 500, `{"error":{"code":500,"message":"backend error"}}`
+	case t.badID && strings.Contains(r.URL.Path, "/hasMember/"):
+		code, body = 400, `{"error":{"code":400,"message":"Invalid Input: memberKey","errors":[{"message":"Invalid Input: memberKey","domain":"global","reason":"invalid"}]}}`
+	case strings.Contains(r.URL.Path, "/members/"):
+		body = `{"email":"u@corp.test","role":"MEMBER","type":"USER"}`
+	}
+	if code == 200 {
+		t.seen = append(t.seen, "ok")
+	} else {
+		t.seen = append(t.seen, "fail")
 	}
 	return &http.Response{StatusCode: code, Status: fmt.Sprintf("%d %s", code, http.StatusText(code)), Proto: "HTTP/1.1", ProtoMajor: 1, ProtoMinor: 1,
 		Header: http.Header{"Content-Type": {"application/json"}}, Body: io.NopCloser(strings.NewReader(body)), ContentLength: int64(len(body)), Request: r}, nil
@@ -40,7 +53,7 @@ func (t *c15DirTransport) RoundTrip(r *http.Request) (*http.Response, error) {
 func c15RunProvider(c *fw.Ctx) {
 	idp := harness.NewFakeIdP()
 	defer idp.Server.Close()
-	ops := []string{"validation-accepted", "validation-refused", "directory-answers", "directory-fails"}
+	ops := []string{"validation-accepted", "validation-refused", "directory-answers", "directory-fails", "directory-rejects-the-member-key"}
 	depth := 5
 	drive(c, "provider/google-directory-breaker", -1, func(x *explore.Exec, owned bool) {
 		gp, err := authp.NewGoogleProvider(&authp.ProviderData{ClientID: "cid", ClientSecret: "cs", SessionLifetimeTTL: time.Hour}, "", "", "", "")
@@ -70,22 +83,28 @@ func c15RunProvider(c *fw.Ctx) {
 				ok := gp.ValidateSessionState(&sessions.SessionState{AccessToken: "tok", Email: "u@corp.test"})
 				hist = append(hist, fmt.Sprintf("%s -> %v", op, ok))
 			default:
-				dir.fail = op == "directory-fails"
-				before := dir.hits
+				dir.fail, dir.badID = op == "directory-fails", op == "directory-rejects-the-member-key"
+				before := len(dir.seen)
 				_, derr := gp.AdminService.CheckMemberships([]string{"group@corp.test"}, "u@corp.test")
-				reached := dir.hits > before
-				hist = append(hist, fmt.Sprintf("%s -> reached-directory=%v err=%v", op, reached, derr))
-				if owned && reached == open {
-					what := "a directory question was rejected by the breaker although fewer than three consecutive DIRECTORY calls had failed"
-					key := "rejected-while-closed"
-					if reached {
-						what, key = "a directory question was let through although three consecutive directory calls had failed and the back-off has not passed", "admitted-while-open"
+				reqs := dir.seen[before:]
+				hist = append(hist, fmt.Sprintf("%s -> directory requests %v err=%v", op, reqs, derr))
+				report := func(key, what string) {
+					if owned {
+						c.Res.Violate(fw.Violation{Property: "C15", Key: "C15/provider/google-directory-breaker/" + key, What: what, Scenario: "provider/google-directory-breaker", Choices: x.Choices(),
+							Detail: map[string]interface{}{"history": hist, "reference_breaker_open": open, "reference_consecutive_directory_failures": consecutiveFailures}})
 					}
-					c.Res.Violate(fw.Violation{Property: "C15", Key: "C15/provider/google-directory-breaker/" + key, What: what, Scenario: "provider/google-directory-breaker", Choices: x.Choices(),
-						Detail: map[string]interface{}{"history": hist, "reference_breaker_open": open, "reference_consecutive_directory_failures": consecutiveFailures}})
 				}
-				if !open {
-					if op == "directory-fails" {
+				if len(reqs) == 0 && !open {
+					report("rejected-while-closed", "a directory question was rejected by the breaker although fewer than three consecutive DIRECTORY calls had failed")
+				}
+				// every request that reached the directory must have been admitted by the breaker as it stood
+				// when the request was made; its outcome then counts
+				for _, outcome := range reqs {
+					if open {
+						report("admitted-while-open", "a request reached the directory although three consecutive directory calls had failed and the back-off has not passed")
+						break
+					}
+					if outcome == "fail" {
 						consecutiveFailures++
 						if consecutiveFailures >= 3 {
 							open = true
